@@ -56,8 +56,20 @@ StageClauses(e, k) ==
        \o StageClauses(e, k + 1)
 RenameClauses(e) == StageClauses(e, 1)
 
+(* rn.many: renaming in a collection with thousands of one-bin chromosomes c0, c1, ... (every k-th gets a suffix) *)
+Digits(k) == IF k < 10 THEN 1 ELSE IF k < 100 THEN 2 ELSE IF k < 1000 THEN 3 ELSE IF k < 10000 THEN 4 ELSE 5
+ManyView(e, v, tag) ==
+  LET n == e.case.n IN
+  << <<"namesInOrder:" \o tag, /\ Len(v.names) = n
+          /\ \A k \in 1..n : v.names[k] = "c" \o ToString(k - 1) \o (IF (k - 1) % e.case.every = 0 THEN e.case.suffix ELSE "")>>,
+     <<"binLabelsRenamed:" \o tag, v.labels_follow_names /\ v.nbins = n>>,
+     <<"lookupsByNewName:" \o tag, v.extent_by_new_name = <<n - 2, n - 1>> >>,
+     <<"pixelsUnchanged:" \o tag, v.pixels = e.case.px>> >>
+ManyClauses(e) == ManyView(e, e.obs.live, "live") \o ManyView(e, e.obs.reopened, "reopened")
+
 Clauses(e) ==
   CASE e.drv = "sc.create" -> ScoolClauses(e)
+    [] e.drv = "rn.many" -> ManyClauses(e)
     [] e.drv = "rn.rename" -> RenameClauses(e)
     [] OTHER -> << <<"unknownDriver", FALSE>> >>
 
